@@ -67,7 +67,7 @@ PROPS = {
         design_ref="DESIGN.md 5/C08",
         module="Bita.Props.C08",
         level="proof",
-        required_theorems=["http_resume", "http_items_exact_prefix", "fetchRun_requests", "io_reader_sound", "io_reader_complete"],
+        required_theorems=["http_resume", "http_items_exact_prefix", "fetchRun_requests", "io_reader_sound", "io_reader_complete", "read_at_exact"],
         suites=dict(quick=[("l1", "c08-http"), ("l1", "c08-io")], thorough=[("l1", "c08-http"), ("l1", "c08-io")]),
         rule="HTTP: one run of two chunks with every cut offset x budgets x one/two cuts x cut/clean-end (exhaustive) plus "
              "random chunk lists, budgets 0..3 and random scripts of refuse/cut/early-end/full; local: random range lists "
@@ -137,7 +137,7 @@ PROPS = {
         design_ref="DESIGN.md 5/C03",
         module="Bita.Props.C03",
         level="proof",
-        required_theorems=["planner_sound", "executor_sound", "inplace_exact"],
+        required_theorems=["planner_sound", "executor_sound", "inplace_exact", "inplace_clone_exact", "inplace_clone_succeeds", "clone_steps_as_modelled"],
         suites=dict(quick=[("l1", "c03")], thorough=[("l1", "c03")]),
         rule="(sizes, prior tiling O, target tiling N) triples: exhaustive small scope + random perturbations (rotate/swap/drop/insert/"
              "duplicate) up to 40 chunks over up to 24 ids; compared: strip statistics, the exact op list, the exact read/write log, the "
@@ -155,7 +155,7 @@ PROPS = {
         design_ref="DESIGN.md 5/C13",
         module="Bita.Props.C13",
         level="proof",
-        required_theorems=["write_log_exact", "write_log_exact_plain"],
+        required_theorems=["write_log_exact", "write_log_exact_plain", "clone_write_log_exact", "clone_steps_as_modelled"],
         suites=dict(quick=[("l1", "c03")], thorough=[("l1", "c03")]),
         rule="as C03; the write log of the real CloneOutput on a logging in-memory file is compared entry by entry with the model's and "
              "judged by the C13 oracle (source chunk at its offset, once, not in place, within the source length)",
@@ -178,7 +178,7 @@ PROPS = {
         module="Bita.Props.C01",
         level="proof",
         needs_bita=True,
-        required_theorems=["compress_conforms", "roundtrip", "stages_preserve_order", "temp_file_complete"],
+        required_theorems=["compress_conforms", "roundtrip", "cli_roundtrip", "roundtrip_over_http", "stages_preserve_order", "temp_file_complete"],
         suites=dict(quick=[("py", "c01_roundtrip")], thorough=[("py", "c01_roundtrip"), ("py", "c12_determinism")]),
         rule="random sources (empty, 1 byte, zeros, constant, repetitive blocks, text, random; up to 20 kB) x random valid configs x hash "
              "lengths x none/brotli levels x buffer counts x file/stdin; oracles: clone output == source, info reports size and Blake2 "
@@ -199,7 +199,7 @@ PROPS = {
         module="Bita.Props.C02",
         level="proof",
         needs_bita=True,
-        required_theorems=["seeds_irrelevant", "feeds_exact"],
+        required_theorems=["seeds_irrelevant", "feeds_exact", "clone_steps_as_modelled"],
         suites=dict(quick=[("py", "c02_seeds")], thorough=[("py", "c02_seeds")]),
         rule="CLI clone scenarios: seeds from {unrelated, the source, edited copies, empty, same size other content, reordered halves}, "
              "optional stdin seed, optional in-place prior (edited source or junk), block-device hook, local or scripted HTTP archive; "
@@ -223,7 +223,7 @@ PROPS = {
         module="Bita.Props.C04",
         level="proof",
         needs_bita=True,
-        required_theorems=["clone_sound_against_any_reader", "header_tamper", "pin_mismatch_refused", "pinned_header_is_genuine", "verify_output_sound"],
+        required_theorems=["clone_sound_against_any_reader", "clone_sound_against_any_server", "clone_steps_as_modelled", "header_tamper", "pin_mismatch_refused", "pinned_header_is_genuine", "verify_output_sound"],
         suites=dict(quick=[("py", "c04_corruption"), ("l1", "fmt")], thorough=[("py", "c04_corruption"), ("l1", "fmt")]),
         rule="per archive (none/brotli, hash length 8/16/64): 120 sampled single-bit flips (every bit of tiny archives in thorough), "
              "truncations at structural offsets, random overwrites, payload swap, trailing garbage, x {plain, seed, --verify-output, pinned}; "
@@ -247,7 +247,7 @@ PROPS = {
         module="Bita.Props.C05",
         level="proof",
         needs_bita=True,
-        required_theorems=["rerun_completes", "rerun_completes_any_content", "failed_write_not_success", "no_fault_success"],
+        required_theorems=["rerun_completes", "rerun_completes_any_content", "failed_write_not_success", "no_fault_success", "clone_steps_as_modelled"],
         suites=dict(quick=[("py", "c05_crash")], thorough=[("py", "c05_crash")]),
         rule="scenarios (plain / in-place, with/without seed file, none/brotli) x crash points (write index x tear offsets {0, size, random, 1, "
              "size-1}) x optional second crash of the re-run; write faults fail/tear at first, middle, second-to-last, last write",
@@ -267,7 +267,7 @@ PROPS = {
         module="Bita.Props.C06",
         level="proof",
         needs_bita=True,
-        required_theorems=["fetch_exact", "scan_starts_at_zero_fact"],
+        required_theorems=["fetch_exact", "scan_starts_at_zero_fact", "clone_steps_as_modelled"],
         suites=dict(quick=[("py", "c02_seeds"), ("l1", "c03")], thorough=[("py", "c02_seeds"), ("l1", "c03")]),
         rule="as C02; compared: the exact list of fetched (offset,size) ranges beyond the header; oracles: no range twice, nothing fetched when "
              "a seed is the source or the output already holds it (regular file and block device)",
@@ -354,7 +354,7 @@ PROPS = {
         module="Bita.Props.C15",
         level="proof",
         needs_bita=True,
-        required_theorems=["tryInit_total", "accepted_archive_is_safe", "scan_is_bounded", "accepted_iff_valid", "accepted_archive_scan_is_bounded", "server_bytes_safe"],
+        required_theorems=["tryInit_total", "accepted_archive_is_safe", "scan_is_bounded", "accepted_iff_valid", "accepted_archive_scan_is_bounded", "server_bytes_safe", "remote_open_total", "local_open_total"],
         suites=dict(quick=[("l1", "fmt"), ("py", "c15_cli")], thorough=[("l1", "fmt"), ("py", "c15_cli")]),
         rule="library: random/wild dictionaries under header::build, wire-level crafted dictionaries and declared-size/offset lies under a "
              "recomputed checksum, bit flips, truncations, random bytes; CLI: 22 field mutations x 4 commands + 13 server scripts; "
@@ -398,7 +398,7 @@ PROPS = {
         module="Bita.Props.C17",
         level="proof",
         needs_bita=True,
-        required_theorems=["conforming_archive_clones", "conforming_archive_reports", "readers_exact_on_any_layout"],
+        required_theorems=["conforming_archive_clones", "conforming_archive_clones_over_http", "conforming_archive_clones_through_io_reader", "conforming_archive_reports", "readers_exact_on_any_layout", "clone_steps_as_modelled"],
         suites=dict(quick=[("py", "c17_conforming")], thorough=[("py", "c17_conforming")]),
         rule="random sources cut arbitrarily (any cut is format-conforming), random valid parameters, independent encoder with random "
              "freedoms; oracle: CLI clone (local, HTTP, with seed) == source, info lines == encoder inputs; model: clone result/output",
